@@ -256,6 +256,7 @@ def to_str(I, v):
 
 
 PY_STR = z3.Function("py_str", V.Val, z3.StringSort())
+PY_JOIN = z3.Function("py_join", z3.StringSort(), V.Val, z3.StringSort())
 
 
 def concat_strs(I, parts):
@@ -1152,6 +1153,9 @@ def _str_join(I, s, args, kwargs):
         if not parts:
             return ""
         return concat_strs(I, parts)
+    if isinstance(items, (SV, MList)):
+        _used("str.join over a symbolic sequence: uninterpreted text py_join(sep, items)")
+        return SV(V.VStr(PY_JOIN(V.S(s), lower(items))))
     raise Unsupported("str.join over a symbolic sequence")
 
 
